@@ -75,7 +75,18 @@ def handle (j : Json) : Except String Json := do
   | "cli" =>
     let tool ← getStr j "tool"
     let outDir := (← getStr j "out_dir").toList
-    let files ← strs j "files"
+    -- with "tree": the file list is what the model's `discover` finds in the tree below "root"
+    -- (`main`); without: the list as given (`run_conversion` entered directly)
+    let files ← (match (getVal j "tree").toOption with
+      | some t => do
+        let xs ← t.getArr?
+        let tree ← xs.toList.mapM fun x => do
+          match x with
+          | .arr #[a, b] => pure ((← a.getStr?).toList, (← b.getStr?).toList)
+          | _ => throw "bad tree entry"
+        let rec_ := (getBool j "recursive").toOption.getD false
+        pure (discover (← getStr j "root").toList rec_ tree)
+      | none => strs j "files" : Except String (List Path))
     let fs := Fs.ofList (← decFs (← getVal j "fs"))
     let T := mkTool (← table j "loads") (← table j "convert") (← table j "render")
     let (step, outs) ← (match tool with
@@ -89,7 +100,7 @@ def handle (j : Json) : Except String Json := do
     let oc := match res.2 with
       | .ok rs => jobj [("ok", jarr (rs.map (fun r => jstr (repName r))))]
       | .error _ => jobj [("raised", jbool true)]
-    pure (jobj [("outcome", oc), ("files", filesOut res.1 query)])
+    pure (jobj [("outcome", oc), ("files", filesOut res.1 query), ("discovered", jarr (files.map jchars))])
   | "convert_dir" =>
     let fmt ← decFmt j
     let inDir := (← getStr j "in").toList
